@@ -87,10 +87,35 @@ def run(ctx, rep):
                 if not ok:
                     rep.problem("dual", f"adaptation state {attr} differs between the two runs", where, "dual:adaptation", True, None, None, "C05_dual")
     _loop.run_all(ctx, rep, "C05", predicate, 24, 200, force=dict(minimization=True))
+    parallel_pairs(ctx, rep)
     # objectives that are undefined (NaN) on part of the search space: the duality is about ALL objectives
     # (implementation vs implementation only: the exact loop model has no NaN)
     _loop.run_all(ctx, rep, "C05", predicate, 3, 12, model=False,
                   force=dict(minimization=True, objective="nanstrip", opt_mode="none", scale=1.0, offset=0.0, buffer=False, g2p=False, intobj=None))
+
+
+def parallel_pairs(ctx, rep):
+    """n_jobs > 1: minimising f and maximising -f must still visit the same populations (the sign is applied once, in the parent)"""
+    import thefittest.optimizers as O
+    import c16_objectives as CO
+    plans = [("GeneticAlgorithm", dict(str_len=6), CO.onemax, CO.neg_onemax), ("DifferentialEvolution", dict(left_border=-2.0, right_border=2.0, num_variables=2), CO.sphere, CO.neg_sphere),
+             ("SHADE", dict(left_border=-2.0, right_border=2.0, num_variables=2), CO.weighted, CO.neg_weighted), ("SHAGA", dict(str_len=6), CO.weighted, CO.neg_weighted)]
+    for kind, kw, f, nf in plans[: ctx.pick(3, 4)]:
+        seed, pop = ctx.rng.randrange(1 << 30), ctx.rng.choice([8, 9])
+        runs = []
+        for mini, obj in ((True, f), (False, nf)):
+            opt = getattr(O, kind)(obj, iters=3, pop_size=pop, n_jobs=2, keep_history=True, random_state=seed, minimization=mini, **kw)
+            opt.fit()
+            runs.append(opt)
+            rep.traces += 1
+        rep.count("parallel-dual", (kind, seed))
+        a, b = (r.get_stats() for r in runs)
+        case = dict(kind=kind, n_jobs=2, random_state=seed, pop_size=pop)
+        d = same_stats(a, b)
+        fa, fb = runs[0].get_fittest(), runs[1].get_fittest()
+        if d or not all(L.same(fa[k], fb[k]) for k in fa):
+            rep.problem("dual", f"{kind} with n_jobs=2: minimising f and maximising -f differ ({d or 'reported fittest'})", case, "dual:parallel", True,
+                        None, None, "C05_dual")
 
 
 def replay(ctx, rp):
